@@ -72,6 +72,7 @@ theorem core_step (fx : Fix) (hfx : fx.d5 = true) (s : St) (a : Action) (s' : St
   case hcClose => glob_tac
   case hcCtx => glob_tac
   case hcInnerRet => glob_tac
+  case hcCloseFail => glob_tac
   case hcPumpWaited => glob_tac
   case hcStop => glob_tac
   case stop => glob_tac
